@@ -109,6 +109,7 @@ def run_history(ops, cluster, sc, tag, out):
             # id(), and a new backend may get the id of one that is gone)
             gone = {id(b) for name, b in backs if name != "memory"}
             refs.held = {k: m for k, m in refs.held.items() if k[0] not in gone}
+            refs.older = {k: m for k, m in refs.older.items() if k[0] not in gone}
             backs = [(name, b if name == "memory" else fresh[name]) for name, b in backs]
             out["obs"]["stores_reopened"] = out["obs"].get("stores_reopened", 0) + 1
             continue
